@@ -1270,6 +1270,40 @@ def check_modules(c):
     return None
 
 
+def gen_ic_default_grid(rng, tier):
+    for fk, ik in (("lin", "flow"), ("flow", "lin"), ("flow", "flow")):
+        for units in ("cube", "voxel", "world"):
+            for red in ("none", "mean"):
+                for _ in range(_n(tier, 1, 8, 2)):
+                    D = rng.choice([2, 3])
+                    shape = rng.sample([5, 6, 7, 9, 11], D)          # non-cubic: the axis order matters
+                    yield {"D": D, "shape": shape, "fk": fk, "ik": ik, "units": units, "red": red,
+                           "t": [round(rng.uniform(-0.2, 0.2), 3) for _ in range(D)], "seed": rng.randrange(1 << 30),
+                           "margin": rng.choice([0, 1, 0.125])}
+
+
+def check_ic_default_grid(c):
+    """grid=None means the default grid of the dense field's shape: the same numbers as passing Grid(shape=field.shape[2:])"""
+    D, shape = c["D"], c["shape"]
+    g = torch.Generator().manual_seed(c["seed"])
+    t = torch.tensor(c["t"], dtype=torch.float64)
+
+    def mk(kind, sign):
+        if kind == "lin":
+            return (sign * t).reshape(1, D, 1)
+        return (sign * t).reshape(1, D, *[1] * D).expand(1, D, *shape) + 0.01 * torch.randn((1, D, *shape), generator=g, dtype=torch.float64)
+
+    f, i = mk(c["fk"], 1.0), mk(c["ik"], -0.6)
+    kw = dict(margin=c["margin"], units=c["units"], reduction=c["red"])
+    a = L.inverse_consistency_loss(f, i, **kw)
+    b = L.inverse_consistency_loss(f, i, grid=Grid(shape=shape), **kw)
+    if a.shape != b.shape or float((a - b).abs().max()) > 1e-9:
+        return (f"C17:inverse_consistency:default-grid:{c['fk']}-{c['ik']}",
+                f"grid=None ({c['fk']} forward, {c['ik']} inverse of shape {shape}, units={c['units']}, reduction={c['red']}) gives "
+                f"{list(a.shape)} / {a.flatten()[:2].tolist()}, grid=Grid(shape=...) gives {list(b.shape)} / {b.flatten()[:2].tolist()}")
+    return None
+
+
 ORACLES = [
     Oracle("affine_null", gen_affine_null, check_affine_null, doc="bending / curvature of affine fields = 0 and unchanged by adding one "
            "(reduced loss, every mode incl. bspline and gaussian; DESIGN I-3: no boundary carve-out)"),
@@ -1292,6 +1326,8 @@ ORACLES = [
     Oracle("bspline_analytic", gen_bspline_analytic, check_bspline_analytic, doc="B-spline bending energy = energy of the analytic spline "
            "second derivatives (independent cubic basis), strides 1..3, functional / alias / module"),
     Oracle("modules", gen_modules, check_modules, doc="losses.flow module classes equal their functional forms for the same arguments"),
+    Oracle("ic_default_grid", gen_ic_default_grid, check_ic_default_grid, doc="inverse_consistency_loss(grid=None) = the same call with "
+           "Grid(shape=<dense field>.shape[2:]) for matrix/flow pairs on non-cubic shapes, every unit"),
 ]
 
 
